@@ -62,6 +62,9 @@ def run(ctx):
              ('shoc_standard', dict(nj=2, ni=4, holes='corner', invalid=False, transposed_coords=('x_centre',))),
              ('ugrid', dict(w=3, h=3, face_coords=True)), ('ugrid', dict(w=3, h=2, face_coords=False, invalid=True))]
     datasets = [gen.any_dataset(rng, f, **kw) for f, kw in fixed]
+    # the longitude of a curvilinear grid stored (x, y), the latitude (y, x)
+    datasets.append(gen.cf2d(rng, ny=3, nx=4, bounds=True, holes='none', invalid=False, lon_transposed=True))
+    datasets.append(gen.cf2d(rng, ny=3, nx=3, bounds=False, holes='none', invalid=False, lon_transposed=True))
     while len(datasets) < n_ds:
         datasets.append(gen.any_dataset(rng))
     twin_leg(ctx, [gen.any_dataset(rng, f, **kw) for f, kw in [('cf1d', dict(ny=3, nx=4)), ('cf2d', dict(ny=3, nx=3, invalid=False)),
